@@ -150,6 +150,17 @@ class _FakeTime:
             r.hook("sleep")
         finally:
             r.sleeping = False
+        # how long the caller has been waiting for ONE result: consecutive sleeps with the same batch at the head of the job queue
+        try:
+            head = id(r.par._jobs[0]) if r.par is not None and len(r.par._jobs) else None
+        except Exception:  # noqa: BLE001 - accounting only
+            head = None
+        if head is not None and head == getattr(r, "_wait_head", None):
+            r._wait_run += 1
+        else:
+            r._wait_head, r._wait_run = head, 1 if head is not None else 0
+        c0 = r.cur_call
+        r.max_wait_same_head[c0] = max(r.max_wait_same_head.get(c0, 0), r._wait_run)
         if any(e.startswith("complete") for e in r.log[before:]) or not had_parked:
             r.idle_run = 0
         else:
@@ -188,6 +199,8 @@ class Run:
         self.n_exec = 0
         self.idle_run = 0
         self.max_idle_with_parked = {}
+        self.max_wait_same_head = {}
+        self._wait_head, self._wait_run = None, 0
         self.exited = False
         self._in_probe = False
         self.midpull_closed = False
